@@ -386,9 +386,19 @@ func runFED07(r *core.Run) {
 	failed := []*fedRequest{}
 	nFaults := 0
 	maxFaults := 1 + W.Weighted([]int{5, 3, 1})
+	// 15% of the runs: the only faults are per-entity failures (one nullable field of one entity is
+	// null with an error at [_entities, i, field], the rest of the answer is intact)
+	partialMode := r.Flag("nopartial") == "" && W.Prob(0.15)
 	e.faultFn = func(q *fedRequest) string {
 		if nFaults >= maxFaults {
 			return ""
+		}
+		if partialMode {
+			if len(q.reps) == 0 || !r.F.Prob(0.5) {
+				return ""
+			}
+			nFaults++
+			return "entity_field_error"
 		}
 		w := []int{len(r0) * 2, 2, 2, 1, 1, 1, 1, 2, 1, 1}
 		k := r.F.Weighted(w)
@@ -465,6 +475,11 @@ func runFED07(r *core.Run) {
 		if m == nil && len(cands) > 0 && e.requiresInputNulled(q, cands) {
 			requiresNull = true
 			key := "requires-input-null"
+			if validateRequires && e.nulledInputsWereReported(q, cands, failed) {
+				// ValidateRequiredExternalFields is on and the subgraph reported the failed input with
+				// an error at [_entities, i, field]: that is the case the option exists for
+				key = "requires-input-null-despite-validation"
+			}
 			onlyTransport := true
 			for _, fq := range failed {
 				if fq.fault != "transport" {
@@ -500,6 +515,10 @@ func runFED07(r *core.Run) {
 			continue
 		}
 		isFailed := q.fault != ""
+		partial := map[string]bool{}
+		for _, pos := range q.partial {
+			partial[pos] = true
+		}
 		if q.fault == "entity_count" {
 			exact = false // documented relaxation: partial merge of a short batch is implementation defined
 		}
@@ -517,7 +536,7 @@ func runFED07(r *core.Run) {
 			if !nested && len(q.reps) > 0 && len(m.reps) > 0 && !ids[parts[0]+"|"+parts[1]] && servedByRepresentation(m, parts) {
 				continue // entity not part of this (smaller) request
 			}
-			if isFailed {
+			if isFailed && (q.fault != "entity_field_error" || (partial[pos] && !nested)) {
 				failPos[pos] = true
 			} else {
 				okPos[pos] = true
@@ -609,6 +628,12 @@ func runFED07(r *core.Run) {
 			// fragments need, so after a transport error of a request only one member type needed the
 			// whole fetch is skipped and the other member types lose data that never depended on it
 			r.Fail(prop, "isolation", "abstract-fetch-overnulling-after-transport-error", "data that does not depend on the failed request was nulled: an entity fetch serving several member types of an abstract selection was skipped as a whole\n%s\nfault-free: %s\nunder faults: %s\nexpected:    %s\n%s", ctxMsg, s0.data, sF.data, canonJSON(mustJSON(refA.Data)), e.describe())
+		} else if !matchAny(f, a, b, c) && validateRequires && onlyPartial(failed) && (isNulling(f, b) || isNulling(f, c)) && sharedKeyShape(op.Query) == "" {
+			// known finding: ValidateRequiredExternalFields treats an entity as tainted when any object
+			// nested below it is tainted (taintedObjects.isTainted descends into every value), so
+			// the dependent fetches of an ancestor entity are skipped as well and fields that never
+			// depended on the failed field are nulled
+			r.Fail(prop, "isolation", "tainted-descendant-overnulling", "with ValidateRequiredExternalFields enabled, a per-entity error on a @requires input nulled fields of other entities: an entity counts as tainted when an entity nested below it is\n%s\nfault-free: %s\nunder faults: %s\nexpected:    %s\n%s", ctxMsg, s0.data, sF.data, canonJSON(mustJSON(refA.Data)), e.describe())
 		} else if !matchAny(f, a, b, c) {
 			r.Fail(prop, "isolation", sharedKeyShape(op.Query), "data under faults is not the fault-free data with exactly the dependent parts null-propagated\n%s\nfault-free: %s\nunder faults: %s\nexpected:    %s\nor:          %s\nfailed positions: %v\nhealthy positions: %v\n%s", ctxMsg, s0.data, sF.data, canonJSON(mustJSON(refA.Data)), canonJSON(mustJSON(refB.Data)), sortedStrings(failPos), sortedStrings(okPos), e.describe())
 		}
@@ -629,6 +654,15 @@ func runFED07(r *core.Run) {
 	}
 	cancel()
 	r.Drain(50)
+}
+
+func onlyPartial(failed []*fedRequest) bool {
+	for _, q := range failed {
+		if q.fault != "entity_field_error" {
+			return false
+		}
+	}
+	return len(failed) > 0
 }
 
 // servedByRepresentation: positions of entity fields reached directly under _entities belong to
@@ -956,6 +990,51 @@ func (e *fedEnv) requiresInputNulled(q *fedRequest, cands []*fedRequest) bool {
 		}
 	}
 	return false
+}
+
+// nulledInputsWereReported: q is a fault-free request with @requires inputs nulled, and every nulled
+// input is a position that an entity_field_error fault failed (null plus an error with its path).
+func (e *fedEnv) nulledInputsWereReported(q *fedRequest, cands, failed []*fedRequest) bool {
+	reported := map[string]bool{}
+	for _, f := range failed {
+		if f.fault != "entity_field_error" {
+			return false
+		}
+		for _, pos := range f.partial {
+			reported[pos] = true
+		}
+	}
+	if len(reported) == 0 {
+		return false
+	}
+	found := false
+	for _, rep := range q.reps {
+		var rm map[string]any
+		if json.Unmarshal([]byte(rep), &rm) != nil {
+			return false
+		}
+		same := false
+		for _, c := range cands {
+			for _, crep := range c.reps {
+				if rep == crep {
+					same = true
+				}
+			}
+		}
+		if same {
+			continue
+		}
+		for k, v := range rm {
+			if k == "id" || k == "__typename" || v != nil {
+				continue
+			}
+			if !reported[fmt.Sprint(rm["__typename"])+"|"+fmt.Sprint(rm["id"])+"|"+k] {
+				return false
+			}
+			found = true
+		}
+	}
+	return found
 }
 
 func repEqualModuloNull(a, b string) bool {
